@@ -65,6 +65,7 @@ func (c *Conn) handleSelect(tag string, dec *imapwire.Decoder, readOnly bool) er
 	}
 
 	c.state = imap.ConnStateSelected
+	c.readOnly = readOnly
 	// TODO: forbid write commands in read-only mode
 
 	var (
@@ -94,7 +95,8 @@ func (c *Conn) handleUnselect(dec *imapwire.Decoder, expunge bool) error {
 		return err
 	}
 
-	if expunge {
+	// CLOSE doesn't remove any message if the mailbox is read-only
+	if expunge && !c.readOnly {
 		w := &ExpungeWriter{}
 		if err := c.session.Expunge(w, nil); err != nil {
 			return err
